@@ -124,7 +124,7 @@ namespace plan
       g_rel(r, op, K);
     }
     else if (name == "pin")
-      op.a = {static_cast<long>(r.below(6)), static_cast<long>(r.below(5)), static_cast<long>(r.below(3)), static_cast<long>(r.below(32))};
+      op.a = {static_cast<long>(r.below(6)), static_cast<long>(r.below(5)), static_cast<long>(r.below(3)), static_cast<long>(r.below(96))};
     else if (name == "spred")
       op.a = {static_cast<long>(r.below(4)), static_cast<long>(r.below(2))};
     else if (name == "cut")
@@ -246,8 +246,30 @@ namespace plan
       ops.push_back(g_op(g, "real"));
     for (int i = 0, n = static_cast<int>(sw.range(0, 3)); i < n; ++i)
       ops.push_back(g_op(g, "bool"));
+    bool diamond = false;
+    if (objects && prop == "C17" && sw.chance(1, 6))
+    { // multiple inheritance: R; A : R; B : A; C : A [, E]; D : B, C - all without fields; instances of several of them; variables over R, A, E
+      diamond = true;
+      auto cls = [&](long sup, long sup2)
+      {
+        Op c;
+        c.name = "class";
+        c.a = {sup, 0, 0, 0, sup2};
+        ops.push_back(c);
+      };
+      const bool with_e = sw.chance(1, 2);
+      cls(0, 0);                 // C0 (R)
+      cls(1, 0);                 // C1 : C0 (A)
+      cls(2, 0);                 // C2 : C1 (B)
+      if (with_e)
+        cls(0, 0);               // C3 (E)
+      cls(2, with_e ? 4 : 0);    // C : A [, E]
+      cls(3, with_e ? 5 : 4);    // D : B, C
+    }
     bool twin_fields = false;
-    if (objects && (prop == "C17" || prop == "C01") && sw.chance(1, prop == "C17" ? 4 : 10))
+    if (diamond)
+      ;
+    else if (objects && (prop == "C17" || prop == "C01") && sw.chance(1, prop == "C17" ? 4 : 10))
     { // a class with two object fields of the same class, a few instances of both, variables over it: `v.g1 != v.h1`
       twin_fields = true;
       Op c0, c1;
